@@ -823,6 +823,25 @@ func (env *Env) call(x ECall) TV {
 			Forall([]Binder{{jn, SInt}}, Implies(And(P, Le(IntLit(0), j), Lt(j, la.T)),
 				And(Le(IntLit(0), gj), Lt(gj, la.T), Eq(aAt(gj), bAt(j)), Eq(App(fn, SInt, gj), j))), []*Term{bAt(j)}))
 		return TV{T: P, Ty: boolT}
+	case "zero":
+		// zero("T"): the zero value of a (scalar or opaque) type
+		if len(x.Args) != 1 {
+			cfail("zero(\"type\")")
+		}
+		lit, ok := x.Args[0].(ELit)
+		if !ok || lit.Kind != "string" {
+			cfail("zero(\"type\")")
+		}
+		tn, _ := strconv.Unquote(lit.Val)
+		ty, err := w.resolveType(tn, env.pkg)
+		if err != nil {
+			cfail("%v", err)
+		}
+		zs := w.sortOf(ty)
+		if zs == "" {
+			cfail("zero of compound type %s", ty)
+		}
+		return TV{T: w.zeroOfSort(zs), Ty: ty}
 	case "owned":
 		// owned(p): p was taken from a pool by the current thread and not put back yet (ghost)
 		if len(x.Args) != 1 {
